@@ -68,11 +68,12 @@ def admitRegisterBLS (_ : AuthState) (_ : Request) (blsProofValid : Bool) (alrea
 /-- standard SDK path: SetPubKeyDecorator (pubkey address = signer) + SigVerificationDecorator -/
 def admitSdkMsg (r : Request) : Bool := r.sig == .valid && r.arg0 == r.origin
 
-/-- app/ante/cosmos/sigverify.go, oracle branch: SetPubKeyDecorator compares pk.Address() with the signer;
-SigVerificationDecorator computes the sign bytes, calls VerifySignature **and drops the result**;
-IncrementSequenceDecorator → CheckAndIncreaseNonce needs a validator entry -/
+/-- app/ante/cosmos/sigverify.go, oracle branch (after commit 8ec350f): SetPubKeyDecorator compares
+pk.Address() with the signer; SigVerificationDecorator computes the sign bytes and returns
+ErrUnauthorized unless VerifySignature succeeds; IncrementSequenceDecorator → CheckAndIncreaseNonce
+needs a validator entry for the creator -/
 def admitOraclePrice (st : AuthState) (r : Request) : Bool :=
-  r.sig != .noPubKey && st.isValidator r.arg0
+  r.sig == .valid && st.isValidator r.arg0
 
 /-- UpdateParams: GetSigners = [msg.Authority] (standard signature check for that account), handler:
 `utils.IsMainnet(chainID) && k.authority != msg.Authority` rejects -/
